@@ -324,3 +324,9 @@ def wf_nodes(x: V) -> bool:
 
 def all_wf_nodes(nodes: list) -> bool:
     return all(wf_node(n) for n in nodes)
+
+
+# ---- error positions (C19) ---------------------------------------------------------------
+def line_col(text: str, offset: int) -> V:
+    """(line, column) of an offset: lines are separated by LF, columns count from 0"""
+    return mk_tuple([str_count(text, "\n", 0, offset) + 1, offset - str_rfind(text, "\n", 0, offset) - 1])
